@@ -405,3 +405,92 @@ def option_value(eng, st, node):
     is_tree = TYP(r) == class_id("Tree")
     tok = get_ref(h.lget(get_ref(h.get_field(r, "children")), 0))
     return SV(z3.If(is_tree, h.get_field(tok, "value"), h.get_field(r, "value")), None)
+
+
+# ---- children of a model_options node, before and after DecayModelParamValueReplacement ---------------------
+def _opt_child(eng, st, t, phase):
+    h = st.heap
+    v = eng.as_val(st, t)
+    r = get_ref(v.t)
+    f = lambda name, x: h.get_field(x, name)
+    c = get_ref(f("children", r))
+    tok = get_ref(h.lget(c, 0))
+    a0 = eng.entry_heap.alloc
+    live = lambda x: z3.And(x >= 0, x < a0)
+    if phase == "raw":
+        tokval_tree = z3.And(is_str(f("value", tok)), lex("SIGNED_NUMBER")(get_s(f("value", tok))))
+        tokval_tok = z3.And(is_str(f("value", r)), lex("LABEL")(get_s(f("value", r))))
+    else:
+        tokval_tree = is_real(f("value", tok))
+        tokval_tok = z3.Or(z3.And(is_str(f("value", r)), lex("LABEL")(get_s(f("value", r)))), is_real(f("value", r)))
+    as_tree = z3.And(TYP(r) == class_id("Tree"), f("data", r) == strv("value"), is_ref(f("children", r)), TYP(c) == class_id("list"),
+                     live(c), h.llen(c) == 1, is_ref(h.lget(c, 0)), TYP(tok) == class_id("Token"), live(tok),
+                     f("type", tok) == strv("SIGNED_NUMBER"), tokval_tree, IS_CHILDREN(c))
+    as_tok = z3.And(TYP(r) == class_id("Token"), f("type", r) == strv("LABEL"), tokval_tok)
+    return z3.And(is_ref(v.t), live(r), z3.Or(as_tree, as_tok))
+
+
+@spec_function()
+def raw_option_child(eng, st, t):
+    """a child of a model_options node as Lark produces it: `value` sub-tree (numeric literal) or LABEL token (word)"""
+    ensure_lex(eng, st)
+    return sv_bool(_opt_child(eng, st, t, "raw"))
+
+
+@spec_function()
+def resolved_option_child(eng, st, t):
+    ensure_lex(eng, st)
+    return sv_bool(_opt_child(eng, st, t, "resolved"))
+
+
+@spec_function()
+def option_token(eng, st, t):
+    """the token that carries the parameter: the node itself, or the token of a `value` sub-tree"""
+    h = st.heap
+    v = eng.as_val(st, t)
+    r = get_ref(v.t)
+    tok = h.lget(get_ref(h.get_field(r, "children")), 0)
+    return SV(z3.If(TYP(r) == class_id("Tree"), tok, v.t), "obj:Token")
+
+
+def ensure_lex(eng, st):
+    if not st.ghost.get("lex_axioms"):
+        st.ghost["lex_axioms"] = True
+        st.assume(*lexical_axioms())
+
+
+@spec_function()
+def option_tokens(eng, st, node):
+    """frame: the parameter tokens of a model_options node (one per child)"""
+    from pyvc.values import RefSet
+    h = st.heap
+    v = eng.as_val(st, node)
+    c = get_ref(h.get_field(get_ref(v.t), "children"))
+    n = h.llen(c)
+
+    def pred(r):
+        j = smt.fresh("ot_j", smt.I)
+        ch = h.lget(c, j)
+        cr = get_ref(ch)
+        tok = get_ref(h.lget(get_ref(h.get_field(cr, "children")), 0))
+        return z3.Exists([j], z3.And(0 <= j, j < n, r == z3.If(TYP(cr) == class_id("Tree"), tok, cr)))
+    return RefSet(pred)
+
+
+RESOLVE = None
+
+
+@spec_function()
+def resolve_word(eng, st, val, is_literal, defs):
+    """what a parameter stands for (from property C05/C01): a numeric literal -> its float; a word that is a Define'd name
+    -> the value (negated when written with a leading minus sign); any other word -> itself"""
+    h = st.heap
+    v = eng.as_val(st, val).t
+    lit = eng.truth(st, is_literal)
+    d = get_ref(eng.as_val(st, defs).t)
+    s = get_s(v)
+    neg = z3.SubString(s, 0, 1) == z3.StringVal("-")
+    tail = smt.VStr(z3.SubString(s, 1, z3.Length(s) - 1))
+    word = z3.If(neg, z3.If(h.dhas(d, tail), smt.VReal(-smt.get_r(h.dget(d, tail))), v),
+                 z3.If(h.dhas(d, v), h.dget(d, v), v))
+    return SV(z3.If(lit, smt.VReal(smt.float_of(s)), word), None)
